@@ -40,7 +40,7 @@ CHECKS = {
 
 CHECKS.update({
  "C07": dict(cat="proof",
-   text="Evaluator half: an SSA read-frame walk shows that on every function reachable from Evaluate/Execute the field Selector.Type is loaded only inside Selector.String and that Selector.String results flow only into fmt.Errorf, and the evaluator's contracts (getValue against Resolve) mention Selector.Path only - so the outcome cannot depend on the spelling. Parser half: the eight selector-building actions are verified by WP against what they must put into Path (identifier text, text[1:] for .N and /seg, the unquoted string for [..], RFC 6901 decoding through pointerstructure.Parse for the pointer form). Which text reaches which action is A-ENGINE, cross-checked by a bounded run over all spellings of paths with awkward keys (~0, ~1, case, unicode) that is run on a violation and in the thorough tier.",
+   text="Evaluator half: an SSA read-frame walk shows that on every function reachable from Evaluate/Execute the field Selector.Type is loaded only inside Selector.String and that Selector.String results flow only into fmt.Errorf, and the evaluator's contracts (getValue against Resolve) mention Selector.Path only - so the outcome cannot depend on the spelling. Parser half: the eight selector-building actions are verified by WP against what they must put into Path (identifier text, text[1:] for .N and /seg, the unquoted string for [..], RFC 6901 decoding through pointerstructure.Parse for the pointer form). Which text reaches which action is A-ENGINE and the grammar's business: a bounded run over all spellings of paths with awkward keys (~0, ~1, zero-padded and non-ASCII numerals, case, unicode), in which every spelling grammar.peg admits must be accepted and evaluate like the bracket spelling, is part of every quick check (labelled bounded, never counted as proved).",
    note=BASE_TRUST + "; A-PS (Parse decodes RFC 6901; Get matches parts exactly), A-ENGINE.", tech=TECH+" + SSA read-frame walk", ref="DESIGN.md §6 C07"),
  "C08": dict(cat="proof",
    text="No channel exists through which struct content reaches an outcome except pointerstructure.Get under the evaluator's tag: (1) an SSA walk over every function reachable from Evaluate/Execute finds no call of Field*/NumField/IsZero/DeepEqual/Equal/fmt.Sprint-style observers; (2) every content observer that is called carries a precondition (discharged by SMT) that excludes kind Struct - Len, Int/Uint/Float/Bool, String (required to be of kind String), Convert, MapIndex, Index; (3) getValue/evaluateNotPresent are verified to pass exactly (tag name, hook) of the evaluator to every Get call. Non-interference then follows on paper from the assumed contract of Get (A-PS).",
